@@ -46,7 +46,7 @@ func hull(a, b ival) ival {
 }
 
 // noteRange records the type range of an atom term of Go integer type t.
-func (e *Engine) noteRange(x *Term, t types.Type) {
+func (f *frame) noteRange(x *Term, t types.Type) {
 	if x == nil || x.Sort != SInt || x.Int != nil {
 		return
 	}
@@ -54,27 +54,28 @@ func (e *Engine) noteRange(x *Term, t types.Type) {
 	if !ok {
 		return
 	}
-	if e.termRange == nil {
-		e.termRange = map[string]ival{}
-	}
-	k := x.String()
-	if old, ok := e.termRange[k]; ok {
-		e.termRange[k] = meet(old, ival{lo, hi})
-		return
-	}
-	e.termRange[k] = ival{lo, hi}
+	f.noteIval(x, ival{lo, hi})
 }
 
+// rangeEnv holds the intervals known for terms within one verification context (one function under
+// proof, one spec-function definition, one axiom). Term names such as param!v are reused between
+// contexts, so the table must never be shared between them.
+type rangeEnv struct {
+	m map[string]ival
+}
+
+func newRangeEnv() *rangeEnv { return &rangeEnv{m: map[string]ival{}} }
+
 // noteIval records a derived interval for a term.
-func (e *Engine) noteIval(x *Term, iv ival) {
+func (f *frame) noteIval(x *Term, iv ival) {
 	if x == nil || x.Sort != SInt || x.Int != nil {
 		return
 	}
-	if e.termRange == nil {
-		e.termRange = map[string]ival{}
+	if f.ranges == nil {
+		f.ranges = newRangeEnv()
 	}
 	k := x.String()
-	e.termRange[k] = meet(e.termRange[k], iv)
+	f.ranges.m[k] = meet(f.ranges.m[k], iv)
 }
 
 func (f *frame) ivalOf(t *Term) ival {
@@ -87,8 +88,10 @@ func (f *frame) ivalOf(t *Term) ival {
 			r = b
 		}
 	}
-	if b, ok := f.e.termRange[t.String()]; ok {
-		r = meet(r, b)
+	if f.ranges != nil {
+		if b, ok := f.ranges.m[t.String()]; ok {
+			r = meet(r, b)
+		}
 	}
 	switch t.Op {
 	case "+":
